@@ -10,6 +10,7 @@ mod c01;
 mod c06;
 mod c07;
 mod c03;
+mod c05;
 mod c04;
 mod c08;
 mod c09;
@@ -26,6 +27,9 @@ mod c18_wdt;
 mod c18_wdl;
 
 use common::*;
+
+#[global_allocator]
+static ALLOC: c05::Counting = c05::Counting;
 use std::path::PathBuf;
 
 fn main() {
@@ -43,6 +47,7 @@ fn main() {
     match args[1].as_str() {
         "dump-consts" => consts::dump(),
         "fsop" => std::process::exit(fsop::main(&args[2..])),
+        "c05child" => std::process::exit(c05::child(&args[2..])),
         "run" => {
             let prop = args.get(2).cloned().unwrap_or_default();
             let mut seed = 1u64;
@@ -76,6 +81,7 @@ fn main() {
             match prop.as_str() {
                 "C01" => c01::run(&mut ctx),
                 "C03" => c03::run(&mut ctx),
+                "C05" => c05::run(&mut ctx),
                 "C06" => c06::run(&mut ctx),
                 "C07" => c07::run(&mut ctx),
                 "C04" => c04::run(&mut ctx),
